@@ -134,6 +134,21 @@ def check_timeline(tl, grid, beats):
             check_timing(model, td, text, fails)
             if fails:
                 break
+        if not fails:
+            # the same TimingData object, edited in place (same number of events, same offset), timed again:
+            # the answer must follow the edit
+            from simfile.timing import BeatValue
+            from decimal import Decimal
+            origin, step = TC.GRIDS[grid]
+            b0, ln0 = tl["warps"][0]
+            new_len = ln0 + step if ln0 < 3 * step else ln0 - step
+            td.warps[0] = BeatValue(beat=td.warps[0].beat, value=Decimal(TC.beat_str(new_len)))
+            tl2 = dict(tl, warps=[(b0, new_len)] + list(tl["warps"][1:]))
+            model2 = T.Timeline(tl2["bpms"], tl2["stops"], tl2["delays"], tl2["warps"], tl2["offset"])
+            before = len(fails)
+            check_timing(model2, td, texts(grid)[0], fails)
+            for f in fails[before:]:
+                f["clause"] += " (same TimingData object timed again after an in-place edit of a warp)"
     return fails
 
 
